@@ -480,7 +480,57 @@ def vector_base(model, R):
         R.unknown('WIRING', m, m.node, f'Vector.{name} overrides the library API the axioms describe', 'override not judged')
 
 
+def _blocks(node):
+    for n in ast.walk(node):
+        for field in ('body', 'orelse', 'finalbody'):
+            b = getattr(n, field, None)
+            if isinstance(b, list) and b and isinstance(b[0], ast.stmt):
+                yield b
+
+
+def _memoising(model, func, target):
+    """The helper hands out a value kept in a cache: a functools cache decorator, or a lookup in / store into a module-level table."""
+    if target is None:
+        return False
+    if any((chain(d.func if isinstance(d, ast.Call) else d) or [''])[-1] in ('lru_cache', 'cache', 'cached', 'cached_property', 'lazyproperty')
+           for d in target.node.decorator_list):
+        return True
+    tables = {name for name, v in target.module.assigns.items()
+              if isinstance(v, (ast.Dict, ast.List, ast.Set)) or (isinstance(v, ast.Call) and (chain(v.func) or [''])[-1] in ('dict', 'defaultdict', 'OrderedDict', 'WeakValueDictionary'))}
+    for n in ast.walk(target.node):
+        if isinstance(n, ast.Subscript) and isinstance(n.value, ast.Name) and n.value.id in tables:
+            return True
+        if isinstance(n, ast.Call) and isinstance(n.func, ast.Attribute) and isinstance(n.func.value, ast.Name) and n.func.value.id in tables \
+                and n.func.attr in ('get', 'setdefault'):
+            return True
+    return False
+
+
+SERIES_API = ('bools', 'frombools', 'fromints', 'ints', 'index_sets', 'members', 'reduce_and', 'reduce_or', '__getitem__', '__iter__', '__len__', '__new__')
+
+
+def vectors_base(model, R):
+    """``Vectors`` leaves the library series API alone (the axioms describe ``bools()`` / ``frombools()`` ... of bitsets.series.Tuple).
+    A redefinition that memoises the result hands every caller the one cached list (decided); anything else is not judged."""
+    cls = model.cls('matrices.Vectors')
+    for name, m in cls.methods.items():
+        if name not in SERIES_API:
+            continue
+        stores = [s for s in stmts(m.body) if isinstance(s, ast.Assign) and any(isinstance(t, ast.Attribute) and name_is(t.value, m.params[0]) for t in s.targets)]
+        rets = [n.value for n in walk(m.body) if isinstance(n, ast.Return) and n.value is not None]
+        cached = [s for s in stores if any(src(t) in {src(r) for r in rets} for t in s.targets)]
+        if cached:
+            R.bad('WIRING', m, cached[0], f'Vectors.{name}: every call returns its own list', 'the library method (a fresh list per call)',
+                  f'{src(cached[0])[:70]}; the stored object is returned by every call',
+                  extra={'consequence': 'Context.bools / Definition tables built from it alias one list: a caller that edits the list it was given changes '
+                                        'what the context reports from then on'})
+        else:
+            R.unknown('WIRING', m, m.node, f'Vectors.{name} overrides the library series API the axioms describe', 'override not judged')
+    R.ok('WIRING', 'matrices.Vectors', cls.node, 'Vectors adds only its own methods to the library series', ', '.join(sorted(cls.methods)))
+
+
 def relation_new(model, R):
+    vectors_base(model, R)
     f = model.func('matrices.Relation.__new__')
     cls_, xname, yname, xmem, ymem, xbools = f.params[:6]
     # X, Y classes on both construction paths
@@ -489,8 +539,7 @@ def relation_new(model, R):
                 and isinstance(s.value, ast.Call)):
             callee = chain(s.value.func)
             target = f.module.funcs.get(callee[0]) if callee and len(callee) == 1 else None
-            cached = target is not None and any((chain(d.func if isinstance(d, ast.Call) else d) or [''])[-1] in ('lru_cache', 'cache', 'cached')
-                                                for d in target.node.decorator_list)
+            cached = _memoising(model, f, target)
             if cached:
                 R.bad('WIRING', f, s, 'X, Y are classes created for this relation', 'direct calls of the bitsets class factory (one new class per relation)',
                       f'{src(s.value.func)}(...) is memoised',
@@ -505,12 +554,32 @@ def relation_new(model, R):
             # the closures are installed on the bit-set *class* (self.BitSet.prime = ...): the class must belong to this relation alone
             callee = chain(s.value.func)
             fresh = callee in (['bitsets', 'bitset'], ['bitsets', 'meta', 'bitset'])
+            if callee == ['bitsets', 'meta', 'bitset']:
+                # the registry variant returns the class registered under the given id: that is "this relation's class" only when the
+                # id is the one unpickling hands in (_ids); an id computed from names/members is the same for every relation with
+                # equal labels
+                idarg = s.value.args[2] if len(s.value.args) > 2 else next((k.value for k in s.value.keywords if k.arg == 'id'), None)
+                # the binding of the id that reaches this call: the nearest earlier one in the same block, else in the function
+                block = next((b for b in _blocks(f.node) if any(x is s for x in b)), f.body)
+                before = [a_ for a_ in block[:[i for i, x in enumerate(block) if x is s][0]] if isinstance(a_, ast.Assign)] if any(x is s for x in block) else []
+                binds = [a_ for a_ in before if isinstance(idarg, ast.Name) and any(isinstance(t_, ast.Name) and t_.id == idarg.id for tg in a_.targets for t_ in ast.walk(tg))]
+                if not binds:
+                    binds = [a_ for a_ in stmts(f.body) if isinstance(a_, ast.Assign) and isinstance(idarg, ast.Name)
+                             and any(isinstance(t_, ast.Name) and t_.id == idarg.id for tg in a_.targets for t_ in ast.walk(tg))][-1:]
+                from_ids = [a_ for a_ in binds[-1:] if isinstance(a_.targets[0], ast.Tuple)
+                            and (name_is(a_.value, f.params[-1]) or (isinstance(a_.value, ast.IfExp) and name_is(a_.value.body, f.params[-1])))]
+                if not from_ids:
+                    R.bad('WIRING', f, s, f'{s.targets[0].id} is a class created for this relation',
+                          'bitsets.bitset(...) (a new class), or the registry entry of the ids handed in by unpickling',
+                          f'registry lookup under {src(idarg) if idarg is not None else "?"} - an id that does not come from _ids',
+                          extra={'consequence': 'relations with equal names and members get the same class; the derivation closures stored on it are '
+                                                'rebound to the table of whichever relation was built last'})
+                    continue
             if fresh:
                 R.ok('WIRING', f, s, f'{s.targets[0].id} is a class created for this relation')
             else:
                 target = f.module.funcs.get(callee[0]) if callee and len(callee) == 1 else None
-                cached = target is not None and any((chain(d.func if isinstance(d, ast.Call) else d) or [''])[-1] in ('lru_cache', 'cache', 'cached')
-                                                    for d in target.node.decorator_list)
+                cached = _memoising(model, f, target)
                 if cached or target is None:
                     R.bad('WIRING', f, s, f'{s.targets[0].id} is a class created for this relation',
                           'a direct call of the bitsets class factory (one new class per relation)',
@@ -524,6 +593,12 @@ def relation_new(model, R):
     ys = [s for s in f.body if isinstance(s, ast.Assign) and name_is(s.targets[0], 'y')]
     ok = (len(xs) == 1 and isinstance(xs[0].value, ast.Call) and chain(xs[0].value.func) == ['X', 'Tuple', 'frombools']
           and [src(a) for a in xs[0].value.args] == [xbools])
+    for fam_, stm_ in (('first', xs), ('second', ys)):
+        if len(stm_) == 1 and isinstance(stm_[0].value, ast.Call) and (chain(stm_[0].value.func) or [''])[-1] == 'fromints':
+            R.bad('WIRING', f, stm_[0], f'{fam_} family built from the cells by truthiness', 'Tuple.frombools(rows)', src(stm_[0].value)[:90],
+                  extra={'consequence': 'cells are used as numbers: a truthy cell other than True/1 (a count, a mark string) sets other bits or raises TypeError, '
+                                        'and the two families no longer describe the same table'})
+            return
     R.check(ok, 'WIRING', f, xs[0] if xs else f.node, 'first family = the given rows', f'x = X.Tuple.frombools({xbools})', src(xs[0].value) if xs else '')
     ok = False
     if len(ys) == 1 and isinstance(ys[0].value, ast.Call) and chain(ys[0].value.func) == ['Y', 'Tuple', 'frombools'] and len(ys[0].value.args) == 1:
@@ -540,7 +615,13 @@ def relation_new(model, R):
         order = [src(e) for e in env.expand(news[0].value.args[-1], skip=('x', 'y', 'X', 'Y')).elts]
     R.check(order == ['x', 'y'], 'WIRING', f, news[0] if news else f.node, 'relation is the pair (first family, second family)', "(x, y)", str(order))
     calls = [n for n in walk(f.body) if isinstance(n, ast.Call) and isinstance(n.func, ast.Attribute) and n.func.attr == '_pair_with']
-    got = sorted((src(c.func.value), const(c.args[1]) if len(c.args) > 1 else None, src(c.args[2]) if len(c.args) > 2 else None) for c in calls)
+    pwp = model.func('matrices.Vectors._pair_with').params[1:]        # (relation, index, other)
+
+    def bound(c):
+        b = dict(zip(pwp, c.args))
+        b.update({k.arg: k.value for k in c.keywords if k.arg})
+        return b
+    got = sorted((src(c.func.value), const(bound(c).get(pwp[1])) if pwp[1] in bound(c) else None, src(bound(c)[pwp[2]]) if pwp[2] in bound(c) else None) for c in calls)
     want = [('x', 0, 'y'), ('y', 1, 'x')]
     if order == ['y', 'x']:
         want = [('x', 1, 'y'), ('y', 0, 'x')]
